@@ -74,10 +74,14 @@ func (s *V1Session) DecodeFromBytes(data []byte, df gopacket.DecodeFeedback) err
 	s.ID = binary.LittleEndian.Uint32(data[5:9])
 	if s.AuthType == AuthenticationTypeNone {
 		// not expecting an auth code
-		s.BaseLayer.Contents = data[:10]
-		s.BaseLayer.Payload = data[10:]
 		s.AuthCode = [16]byte{}
 		s.Length = uint8(data[9])
+		if len(data) < 10+int(s.Length) {
+			df.SetTruncated()
+			return fmt.Errorf("v1.5 session shorter than payload length field suggests: want %v bytes, got %v", 10+int(s.Length), len(data))
+		}
+		s.BaseLayer.Contents = data[:10]
+		s.BaseLayer.Payload = data[10 : 10+int(s.Length)]
 	} else {
 		// there should be an auth code
 		if len(data) < 26 {
@@ -85,10 +89,14 @@ func (s *V1Session) DecodeFromBytes(data []byte, df gopacket.DecodeFeedback) err
 			return fmt.Errorf("v1.5 session is 26 bytes with an auth code, got %v bytes", len(data))
 		}
 
-		s.BaseLayer.Contents = data[:26]
-		s.BaseLayer.Payload = data[26:]
 		copy(s.AuthCode[:], data[9:25]) // TODO work out byte order - probably need to reverse
 		s.Length = uint8(data[25])
+		if len(data) < 26+int(s.Length) {
+			df.SetTruncated()
+			return fmt.Errorf("v1.5 session shorter than payload length field suggests: want %v bytes, got %v", 26+int(s.Length), len(data))
+		}
+		s.BaseLayer.Contents = data[:26]
+		s.BaseLayer.Payload = data[26 : 26+int(s.Length)]
 	}
 	return nil
 }
